@@ -270,10 +270,13 @@ def run(ctx, pid='C03'):
             fwd.append((py(t2.m(m, 'get_year')), py(t2.m(m, 'get_month_with_leap')), py(t2.m(m, 'get_index_in_year'))))
             m = t2.m(m, 'next', 1)
         back = []
+        zero = []
         for _ in range(n):
             m = t2.m(m, 'next', -1)
             back.append((py(t2.m(m, 'get_year')), py(t2.m(m, 'get_month_with_leap'))))
-        return (fwd, back)
+            z = t2.m(m, 'next', 0)
+            zero.append((py(t2.m(z, 'get_year')), py(t2.m(z, 'get_month_with_leap'))))
+        return (fwd, back, zero == back)
 
     def walk_orc(y):
         seq = year_seq(y - 1) + year_seq(y) + year_seq(y + 1)
@@ -281,10 +284,10 @@ def run(ctx, pid='C03'):
         for yy in (y - 1, y, y + 1):
             for i, (a, b) in enumerate(year_seq(yy)):
                 fwd.append((a, b, i))
-        return (fwd, list(reversed(seq)))
+        return (fwd, list(reversed(seq)), True)
     wy = [y for y in list(sample.values()) + [common] if (y - 1) not in reform_years(p) and y not in reform_years(p)]
     table(ctx, 'PETE-STUB', 'LunarMonth::next:order', wy, walk_year, walk_orc,
-          'stepping month by month through three lunar years visits 1..12 with the leap month directly after its twin, positions counting up, and stepping back retraces the same months', str, fn_site(p, 'LunarMonth::next'))
+          'stepping month by month through three lunar years visits 1..12 with the leap month directly after its twin, positions counting up; stepping back retraces the same months; stepping by 0 is the identity (also on a leap month)', str, fn_site(p, 'LunarMonth::next'))
 
     # stride: with calc_shuo(x) = trunc(1000 x), first(k+1) - first(k) must equal the length computed for month k
     def stride(x):
